@@ -30,7 +30,7 @@ def run(ctx):
         n += uscan.report_sinks(ctx, lambda cat: 'C19.R1' if cat in DISPLAY_CATS else None, sc)
     sc = targets.scan_bake(ctx)
     n += uscan.report_sinks(ctx, lambda cat: 'C19.R1' if cat in FEED_CATS else None, sc)
-    floor(ctx, 'display-related sink sites', n, 25)
+    floor(ctx, 'display-related sink sites', n, 10)
     ctx.count('bake_variants', sc.variants)
     # instruction-building statements (anchor floor)
     nins = 0
@@ -39,7 +39,7 @@ def run(ctx):
             for node in ast.walk(fi.node):
                 if isinstance(node, ast.Attribute) and node.attr == 'instructions' and isinstance(node.ctx, ast.Store):
                     nins += 1
-    floor(ctx, 'statements building .instructions', nins, 20)
+    floor(ctx, 'statements building .instructions', nins, 8)
     # R2 rescale invariant
     unitspec.rescale_helpers(ctx, 'C19.R2')
     # R3 same source
